@@ -1825,6 +1825,20 @@ class Module(ABC):
                 ]
                 unshared_cols = [col for col in channel_cols if col not in shared_cols]
                 self.base.nodes.drop(columns=unshared_cols + [name], inplace=True)
+
+                # Recordings and clamps of states that no longer exist cannot be
+                # simulated. They are removed together with the channel.
+                removed_states = [c for c in unshared_cols if c in channel.channel_states]
+                if channel.current_name not in self.base.membrane_current_names:
+                    removed_states.append(channel.current_name)
+                if len(self.base.recordings) > 0:
+                    keep = ~self.base.recordings["state"].isin(removed_states)
+                    self.base.recordings = self.base.recordings[keep].reset_index(
+                        drop=True
+                    )
+                for key in removed_states:
+                    self.base.externals.pop(key, None)
+                    self.base.external_inds.pop(key, None)
         else:
             raise ValueError(f"Channel {name} not found in the module.")
 
